@@ -379,3 +379,12 @@ def r9(ctx: Ctx) -> None:
         if names and arities != want:
             ctx.report(f.where, f"name-arity {sorted(arities)}", f"{f.qualname} names net members with {sorted(arities)} indices but declares "
                        f"{'two' if with_cols else 'one'}-index modules", lineno=f.node.lineno)
+
+
+@rule("C19", "R10.floorset-shapes", "SHARED(C15)",
+      "the rectangles the FloorSet converter writes for a polygonal block are the block's decomposition: the run extraction of the "
+      "branch histograms and the validity count of StropInstance (the C15 rules evaluated for the decomposition the converter calls)", floor=4)
+def shared_strop(ctx: Ctx) -> None:
+    from . import C15 as _c15
+    from .common import support
+    support(ctx, [_c15.r7_runs, _c15.r4], {"StropInstance.__init__"})
